@@ -21,7 +21,7 @@ def mapM' {α β} (f : α → Option β) : List α → Option (List β)
 
 /-- keys of a Python dict are pairwise distinct -/
 def keysOk (kv : List (Val × Val)) : Bool :=
-  kv.all (fun (k, _) => match k with | .str _ => true | _ => false) && (Binary.dictKeys kv).Nodup
+  kv.all (fun (k, _) => match k with | .str _ => true | _ => false) && (dictKeys kv).Nodup
 
 def normPrim (p : Prim) (v : Val) : Option Val :=
   match p, v with
